@@ -26,7 +26,7 @@ KeyLocatorS == <<FName("name", N(7)), FBytes("key_digest", N(29))>>
 SigInfoS    == <<FUintFix("signature_type", N(27), 1), FModel("key_locator", N(28), KeyLocatorS, FALSE),
                  FUint("signature_nonce", N(38)), FUint("signature_time", N(40)), FUint("signature_seq_num", N(42))>>
 LinksS      == <<FRep("names", FName("names", N(7)))>>
-InterestS   == <<FName("name", N(7)), FBool("can_be_prefix", N(33)), FBool("must_be_fresh", N(18)),
+InterestS   == <<FIName("name", N(7)), FBool("can_be_prefix", N(33)), FBool("must_be_fresh", N(18)),
                  FModel("forwarding_hint", N(30), LinksS, FALSE), FUintFix("nonce", N(10), 4),
                  FUint("lifetime", N(12)), FUintFix("hop_limit", N(34), 1),
                  FBytes("application_parameters", N(36)), FModel("signature_info", N(44), SigInfoS, FALSE),
@@ -146,7 +146,7 @@ IsTaken(s, input, p) ==
 RECURSIVE WellFormedLevel(_, _, _), ValueOK(_, _), ExtractLevel(_, _), ValueOf(_, _)
 ValueOK(d, e) ==
   CASE d.kind = "uint"  -> e.leaf /\ LegalWidth(e.n)
-    [] d.kind = "name"  -> \A i \in 1 .. Len(e.kids) : e.kids[i].fits
+    [] d.kind = "name"  -> (\A i \in 1 .. Len(e.kids) : e.kids[i].fits) /\ OneDigest(d, e)
     [] d.kind = "model" -> WellFormedLevel(d.sub, d.ic, e.kids)
     [] OTHER -> TRUE
 ElemDesc(d) == IF d.kind = "repeated" THEN d.elem[1] ELSE d
